@@ -99,7 +99,12 @@ def scenario(x, p):
                     gone.add(getattr(args, s))
                     will_fail = True
             elif fault == 'badext':
-                fn = '/w/src_%s.txt' % s
+                # not a cart (nor, for the lua section, a .lua file): a text
+                # file, a picture, a .lua file named for a data section
+                kinds = ['.txt', '.png', '.p8.bak']
+                if s != 'lua':
+                    kinds.append('.lua')
+                fn = '/w/src_%s%s' % (s, x.choice('badext_kind', kinds))
                 setattr(args, s, fn)
                 exists.add(fn)
                 will_fail = True
@@ -237,6 +242,8 @@ def cli(x, p):
                 will_fail = True
             elif fsec == sec and fault == 'badext':
                 fn = '/w/notes.txt'
+                if sec != 'lua' and x.bool('badext_is_lua'):
+                    fn = '/w/m.lua'      # a .lua file for a data section
                 will_fail = True
             argv += ['--' + sec, fn]
             if fsec == sec and fault == 'both':
@@ -299,6 +306,52 @@ def cli(x, p):
                 bytes(got.label._data) == bytes(carts['prev'].label._data))
 
 
+def twice(x, p):
+    """Two builds in one process (tool.main called twice, as a script or a
+    test driver does): the second OUT is what the second command alone
+    would produce - nothing of the first build's sources or packages."""
+    from props import clikit
+    first = x.choice('first', ['lua+require', 'lua', 'carts'])
+    second = x.choice('second', ['lua', 'lua+require', 'carts'])
+    files = {'/w/a.p8': cart_text(11), '/w/b.p8': cart_text(23),
+             '/w/p1/main.lua': b'local l=require("lib")\nu=1\n',
+             '/w/p1/lib.lua': b'return "one"\n',
+             '/w/p1/plain.lua': b'u=11\n',
+             '/w/p2/main.lua': b'local l=require("lib")\nw=2\n',
+             '/w/p2/lib.lua': b'return "two"\n',
+             '/w/p2/plain.lua': b'w=22\n'}
+
+    def argv_for(kind, proj, out):
+        if kind == 'lua+require':
+            return ['build', '--lua', '/w/%s/main.lua' % proj, out]
+        if kind == 'lua':
+            return ['build', '--lua', '/w/%s/plain.lua' % proj, out]
+        return ['build', '--gfx', '/w/a.p8', '--lua', '/w/b.p8', out]
+    fs = clikit.MemFS(x, files)
+    rc1, exc1 = clikit.run_main(argv_for(first, 'p1', '/w/out1.p8'))
+    x.check('first build succeeds', And(exc1 is None, rc1 == 0),
+            info=repr((rc1, exc1))[:160])
+    rc2, exc2 = clikit.run_main(argv_for(second, 'p2', '/w/out2.p8'))
+    x.check('second build succeeds', And(exc2 is None, rc2 == 0),
+            info=repr((rc2, exc2))[:160])
+    if exc2 is not None or rc2 != 0 or '/w/out2.p8' not in fs.files:
+        return
+    got = clikit.lua_of(fs.files['/w/out2.p8'])
+    x.out('code', got)
+    from props.C14 import sig_tokens
+    if second == 'lua+require':
+        exp = b'package={loaded={},_c={}}\npackage._c["lib"]=function()\n' + \
+            files['/w/p2/lib.lua'] + b'end\n' + \
+            b''.join(build.REQUIRE_LUA_PREAMBLE_REQUIRE) + \
+            files['/w/p2/main.lua']
+    elif second == 'lua':
+        exp = files['/w/p2/plain.lua']
+    else:
+        exp = b'v=23\n'
+    x.check('the second OUT holds what the second command names, nothing '
+            'of the first build', sig_tokens(got) == sig_tokens(exp))
+
+
 Q = {'_budget': 900}
 FAULTS = ['none', 'both', 'missing', 'badext', 'badout']
 HARNESSES = [
@@ -309,6 +362,7 @@ HARNESSES = [
                    dict(Q, free=['lua', 'gff'], fixed='empty'),
                    dict(Q, free=['map'], fixed='png')],
             thorough=[dict(Q, free=list(SECTIONS), _budget=3000)]),
+    Harness('twice', twice, quick=[Q]),
     Harness('cli', cli,
             quick=[dict(Q, free=['lua', 'gfx']),
                    dict(Q, free=['gff', 'map'], faults=FAULTS),
